@@ -24,6 +24,42 @@ def KeyValue.ofFields (fs : List Field) : KeyValue :=
 
 def KeyValue.decode (b : Bytes) : Option KeyValue := (fieldsOf b).map KeyValue.ofFields
 
+/-! ### decoding into a recycled receiver
+
+`Command.ResetVT` keeps the backing array of `Batch` and the `KeyValue` objects in it (each one
+`Reset()`), and `UnmarshalVT` decodes the i-th batch element INTO the i-th retained object when there
+is one: only the fields present on the wire are assigned, everything else is whatever the object
+held.  Proto3 omits empty bytes and zero numbers, so the retained object must be in its default
+state for the decode to be lossless (seeded change C18-g skipped the `Reset()`). -/
+
+/-- `UnmarshalVT` into an existing `KeyValue` -/
+def KeyValue.ofFieldsInto (base : KeyValue) (fs : List Field) : KeyValue :=
+  fs.foldl (fun c f => match f with
+    | .bytes 1 d => { c with key := d }
+    | .varint 2 n => { c with createRev := n }
+    | .varint 3 n => { c with modRev := n }
+    | .bytes 4 d => { c with value := d }
+    | _ => c) base
+
+def KeyValue.decodeInto (base : KeyValue) (b : Bytes) : Option KeyValue :=
+  (fieldsOf b).map (KeyValue.ofFieldsInto base)
+
+/-- `(*KeyValue).Reset()` -/
+def KeyValue.reset (_ : KeyValue) : KeyValue := ⟨[], 0, 0, []⟩
+
+/-- the batch of a message decoded into the retained objects `ret` of a recycled `Command`: element
+i goes into `ret[i]` while there is one, into a fresh object afterwards -/
+def batchInto : List KeyValue → List Bytes → Option (List KeyValue)
+  | _, [] => some []
+  | [], b :: bs => do
+    let kv ← KeyValue.decode b
+    let rest ← batchInto [] bs
+    pure (kv :: rest)
+  | r :: ret, b :: bs => do
+    let kv ← KeyValue.decodeInto r b
+    let rest ← batchInto ret bs
+    pure (kv :: rest)
+
 /-- the embedded messages of the three RequestOp arms -/
 structure RangeMsg where
   key : Bytes := []
